@@ -15,6 +15,7 @@ import SymfcModel.Model.Solver
 import SymfcModel.Model.Api
 import SymfcModel.Model.Eig
 import SymfcModel.Model.SgPerm
+import SymfcModel.Model.SgPermFull
 import SymfcModel.Model.Relabel
 import SymfcModel.Gen.PermTables
 import SymfcModel.Gen.Cutoff
@@ -380,6 +381,16 @@ def handle (j : Json) : Except String Json := do
     let tp ← jNatList (← j.getObjVal? "tp")
     let perm ← jNatList (← j.getObjVal? "perm")
     pure (natsJ (composeOut tp perm))
+  | "sg_permutations" =>
+    -- the whole of compute_sg_permutations on grid inputs (Model/SgPermFull.lean): null or the (n_ops, N) table
+    let S ← jInt j "S"
+    let ps ← (← (← j.getObjVal? "positions").getArr?).toList.mapM jIntList
+    let rots ← (← (← j.getObjVal? "rotations").getArr?).toList.mapM (fun r => do
+      (← r.getArr?).toList.mapM jIntList)
+    let ts ← (← (← j.getObjVal? "translations").getArr?).toList.mapM jIntList
+    pure (match sgPermutations S ps rots ts with
+      | some out => natMatJ out
+      | none => Json.null)
   | "round_half_even" =>
     let t ← jInt j "t"; let den ← jInt j "den"
     pure (Json.num (JsonNumber.fromInt (roundHalfEven t den)))
